@@ -5,6 +5,7 @@ import ast
 
 from sa.model import AnalysisError, ClassInfo, FuncInfo, Model, walk_no_nested
 from sa.report import Report
+from sa.util import check_unravel_2d
 
 TITLE = "Target URIs and range expressions denote exactly what the user wrote"
 NET = "gallia.net"
@@ -152,38 +153,7 @@ def run(m: Model, r: Report, tier: str) -> None:
     src2 = ast.unparse(u2.node)
     r.check(src2.count("unravel(") == 3 and "sorted(ur)" in src2 and "for x in sorted(unsorted_result)" in src2, "R5", f"{u2.qualname}#uses-unravel",
             "both levels must be parsed with unravel and the result sorted", loc=u2.loc)
-    # accumulator discipline (shared with C10.R9)
-    stores = [n for n in ast.walk(u2.node) if isinstance(n, ast.Assign) and isinstance(n.targets[0], ast.Subscript)]
-    mp = {ast.unparse(s.targets[0].value) for s in stores}
-    if len(mp) != 1:
-        raise AnalysisError(f"{u2.qualname}: accumulator not found")
-    mpn = mp.pop()
-    par = {}
-    for p_ in ast.walk(u2.node):
-        for c in ast.iter_child_nodes(p_):
-            par[id(c)] = p_
-    def guards(n):
-        out = []
-        cur, prev = par.get(id(n)), n
-        while cur is not None:
-            if isinstance(cur, ast.If):
-                out.append(("then" if prev in cur.body else "else", ast.unparse(cur.test)))
-            prev, cur = cur, par.get(id(cur))
-        return out
-    none_stores = [s for s in stores if isinstance(s.value, ast.Constant) and s.value.value is None]
-    helper_calls = [ast.unparse(n) for n in ast.walk(u2.node) if isinstance(n, ast.Call) and isinstance(n.func, ast.Attribute) and ast.unparse(n.func.value) == mpn
-                    and n.func.attr in ("setdefault", "get", "pop", "update")]
-    ok_none = len(none_stores) == 1 and not helper_calls and any(side == "else" and "level_delimiter in" in t for side, t in guards(none_stores[0])) and \
-        not any(side == "then" and ("not in" in t or "is None" in t) for side, t in guards(none_stores[0]))
-    r.check(ok_none, "R5", f"{u2.qualname}#bare-key-means-all",
-            f"a bare outer key must store None unconditionally (stores {[ast.unparse(s) for s in none_stores]}, dict helpers {helper_calls}): "
-            "'7:1,3-5 7' denotes all of 7", loc=u2.loc)
-    other = [s for s in stores if s not in none_stores]
-    r.check(bool(other) and all(any(side == "then" and t.replace(" ", "") == f"xnotin{mpn}" for side, t in guards(s)) for s in other), "R5",
-            f"{u2.qualname}#listing-never-replaces-all", "an id set may only be created for a key not yet in the map", loc=u2.loc)
-    muts = [n for n in ast.walk(u2.node) if isinstance(n, ast.Call) and isinstance(n.func, ast.Attribute) and n.func.attr in ("add", "update") and ast.unparse(n.func.value) != mpn]
-    r.check(bool(muts) and all(any(side == "then" and "is not None" in t for side, t in guards(x)) for x in muts), "R5", f"{u2.qualname}#extend-only-sets",
-            "ids may only be added to an entry tested to be not None", loc=u2.loc)
+    check_unravel_2d(m, r, "R5")
     pr = m.require_function(f"{CONFIG}._process_ranges")
     ps = ast.unparse(pr.node)
     r.check("unravel(','.join(value.split()))" in ps and "unravel(','.join(value))" in ps, "R5", f"{pr.qualname}#joins", "Ranges must join tokens with ',' and parse with unravel", loc=pr.loc)
